@@ -210,6 +210,7 @@ pub fn run(report: &Report) {
     explore::<U16U64>(report, &all_strings(&few16, 5), if q { 2 } else { 3 }, "strings over {0,1,8000,ffff,5a5a}, len 0..=5");
     explore::<U32U64>(report, &all_strings(&few32, 4), if q { 3 } else { 4 }, "strings over 5 boundary words, len 0..=4");
     explore::<U64U128>(report, &all_strings(&few64, 4), if q { 2 } else { 3 }, "strings over 4 boundary words, len 0..=4");
+    super::pyfront::sweep(report, "views", if q { 3 } else { 4 }, "every constructor that takes compressed words (8) on every word string up to the listed length over 6 words, and every call form that takes symbol / parameter arrays (3 coders x 2 forms) on every message up to length 4: a negative-stride view, a stride-2 view and an interior slice must be read like a contiguous copy", &["AnsCoder(words, seal=True)"], &[]);
     super::pyfront::sweep(report, "bitsback", if q { 3 } else { 4 },
         "every u32 word string up to the listed length over 8 boundary words, as AnsCoder(words, seal=True) and (last word non-zero) AnsCoder(words), x 5 models x {1, 2, 5 symbols} x 3 call forms: decode, encode the symbols back, get_compressed(unseal) == words; num_valid_bits == 32 * len",
         &[], &[]);
